@@ -371,6 +371,8 @@ structure SrcDef where
   name : String
   /-- flattened scopes of the source query, children first, root last -/
   scopes : List LScope
+  /-- (scope index in the fragment, alias) of the table references written WITHOUT an alias -/
+  implicit : List (Nat × String) := []
 
 def findDef (n : String) : List SrcDef → Option SrcDef
   | [] => none
@@ -391,7 +393,25 @@ abbrev RecDef := SrcDef → List LScope → List LScope × Nat
     definitions keyed by plain names, `lookupKeyed …` (below) for keys and references given as identifiers -/
 abbrev Look := String → Option SrcDef
 
-def expSrc (mk : String → Option String) (recDef : RecDef) (look : Look) (m : List Nat)
+/-- the alias of the derived table that replaces a reference: (reference had an explicit alias?, its current alias,
+    normalised name of the definition) ↦ alias.  The real rule is `expandAlias` below. -/
+abbrev AliasFn := Bool → String → String → String
+
+/-- where a fragment's references are and which of them carry no alias -/
+structure FragCtx where
+  implicit : List (Nat × String)
+  /-- index of the scope being placed, within its fragment -/
+  idx : Nat
+
+def newAlias (al : AliasFn) (look : Look) (cx : FragCtx) (as : String × Src) : String :=
+  match as.2 with
+  | .scope _ _ _ _ => as.1
+  | .table n =>
+    match look n with
+    | none => as.1
+    | some d => al (!(cx.implicit.contains (cx.idx, as.1))) as.1 d.name
+
+def expSrc (mk : String → Option String) (al : AliasFn) (recDef : RecDef) (look : Look) (cx : FragCtx) (m : List Nat)
     (as : String × Src) (out : List LScope) : (String × Src) × List LScope :=
   match as.2 with
   | .scope i c r t => ((as.1, .scope (remapIdx m i) c r t), out)
@@ -400,40 +420,58 @@ def expSrc (mk : String → Option String) (recDef : RecDef) (look : Look) (m : 
     | none => (as, out)
     | some d =>
       let r := recDef d out
-      ((as.1, .scope r.2 false none (mk d.name)), r.1)
+      ((newAlias al look cx as, .scope r.2 false none (mk d.name)), r.1)
 
-def expSrcs (mk : String → Option String) (recDef : RecDef) (look : Look) (m : List Nat) :
+def expSrcs (mk : String → Option String) (al : AliasFn) (recDef : RecDef) (look : Look) (cx : FragCtx) (m : List Nat) :
     List (String × Src) → List LScope → List (String × Src) × List LScope
   | [], out => ([], out)
   | as :: rest, out =>
-    let r1 := expSrc mk recDef look m as out
-    let r2 := expSrcs mk recDef look m rest r1.2
+    let r1 := expSrc mk al recDef look cx m as out
+    let r2 := expSrcs mk al recDef look cx m rest r1.2
     (r1.1 :: r2.1, r2.2)
 
-def expScope (mk : String → Option String) (recDef : RecDef) (look : Look) (m : List Nat) (sc : LScope)
-    (out : List LScope) : LScope × List LScope :=
+def findSrc (a : String) : List (String × Src) → Option (String × Src)
+  | [] => none
+  | as :: rest => if as.1 = a then some as else findSrc a rest
+
+/-- the column qualifiers follow the alias of their source -/
+def aliasRename (al : AliasFn) (look : Look) (cx : FragCtx) (srcs : List (String × Src)) (a : String) : String :=
+  match findSrc a srcs with
+  | some as => newAlias al look cx as
+  | none => a
+
+def expScope (mk : String → Option String) (al : AliasFn) (recDef : RecDef) (look : Look) (cx : FragCtx) (m : List Nat)
+    (sc : LScope) (out : List LScope) : LScope × List LScope :=
   match sc with
   | .select projs fb srcs =>
-    let r := expSrcs mk recDef look m srcs out
-    (.select (projs.map (remapProj m)) (remapProj m fb) r.1, r.2)
+    let r := expSrcs mk al recDef look cx m srcs out
+    let ρ := aliasRename al look cx srcs
+    (.select (projs.map fun p => (remapProj m p).rename ρ) ((remapProj m fb).rename ρ) r.1, r.2)
   | .union op l r names => (.union op (remapIdx m l) (remapIdx m r) names, out)
   | .wrap i => (.wrap (remapIdx m i), out)
 
 /-- place the scopes of one fragment, in order; returns the output list and the index of the fragment's root -/
-def expFrag (mk : String → Option String) (recDef : RecDef) (look : Look) :
+def expFrag (mk : String → Option String) (al : AliasFn) (recDef : RecDef) (look : Look) (implicit : List (Nat × String)) :
     List LScope → List Nat → List LScope → List LScope × Nat
   | [], m, out => (out, (m.getLast?).getD out.length)
   | sc :: rest, m, out =>
-    let r := expScope mk recDef look m sc out
-    expFrag mk recDef look rest (m ++ [r.2.length]) (r.2 ++ [r.1])
+    let r := expScope mk al recDef look ⟨implicit, m.length⟩ m sc out
+    expFrag mk al recDef look implicit rest (m ++ [r.2.length]) (r.2 ++ [r.1])
 
-def expandF (mk : String → Option String) (look : Look) : Nat → RecDef
+def expandF (mk : String → Option String) (al : AliasFn) (look : Look) : Nat → RecDef
   | 0, _, out => (out ++ [errScope], out.length)
-  | f + 1, d, out => expFrag mk (expandF mk look f) look d.scopes [] out
+  | f + 1, d, out => expFrag mk al (expandF mk al look f) look d.implicit d.scopes [] out
 
-/-- the whole query: (flattened scopes, root index) -/
+/-- keep the alias the reference has in the un-expanded scopes (plain-name definitions, every reference aliased) -/
+def keepAlias : AliasFn := fun _ cur _ => cur
+
+/-- the whole query: (flattened scopes, root index); `implicit` = the un-aliased references of the main query -/
+def expandQA (mk : String → Option String) (al : AliasFn) (look : Look) (fuel : Nat) (implicit : List (Nat × String))
+    (main : List LScope) : List LScope × Nat :=
+  expFrag mk al (expandF mk al look fuel) look implicit main [] []
+
 def expandQ (mk : String → Option String) (look : Look) (fuel : Nat) (main : List LScope) : List LScope × Nat :=
-  expFrag mk (expandF mk look fuel) look main [] []
+  expandQA mk keepAlias look fuel [] main
 
 /-! #### the keys of `sources=`: normalised exactly once (builders.py:913 for the dict keys, :917 for a reference)
 
@@ -464,14 +502,15 @@ def defKey (f : CaseFns) (s : Strategy) : Nat → List Ident → String
 structure KeyedDef where
   key : List SqlglotModel.Ident.Ident
   scopes : List LScope
+  implicit : List (Nat × String) := []
 
 /-- a Python dict built in order: a later equal key replaces an earlier one -/
-def findKeyed (k : String) : List (String × List LScope) → Option SrcDef
+def findKeyed (k : String) : List SrcDef → Option SrcDef
   | [] => none
-  | (dk, sc) :: rest =>
+  | d :: rest =>
     match findKeyed k rest with
-    | some d => some d
-    | none => if dk = k then some ⟨dk, sc⟩ else none
+    | some d' => some d'
+    | none => if d.name = k then some d else none
 
 def lookupRef (n : String) : List (String × List SqlglotModel.Ident.Ident) → Option (List SqlglotModel.Ident.Ident)
   | [] => none
@@ -483,7 +522,46 @@ def lookupKeyed (f : CaseFns) (s : Strategy) (passes : Nat) (defs : List KeyedDe
   fun n =>
     match lookupRef n refs with
     | none => none
-    | some r => findKeyed (normKey f s r) (defs.map fun d => (defKey f s passes d.key, d.scopes))
+    | some r => findKeyed (normKey f s r) (defs.map fun d => { name := defKey f s passes d.key, scopes := d.scopes, implicit := d.implicit })
+
+
+/-! #### the alias of the replacing derived table (builders.py:923 `parsed_source.subquery(node.alias or name)`) -/
+
+/-- which expression the alias is built from (extracted from the source: Generated.C17.expandAliasVariant) -/
+inductive AliasVariant
+  | fullName      -- `node.alias or name`  (name = the full normalised dotted name)
+  | aliasOrName   -- `node.alias_or_name`  (the LAST name part)
+  | other
+  deriving DecidableEq, Repr
+
+def lastPart (key : String) : String := ((splitDots key.toList []).getLast?).getD key
+
+/-- the alias TEXT handed to `.subquery(…)` -/
+def expandAliasText (v : AliasVariant) (explicit : Option String) (key : String) : String :=
+  match explicit with
+  | some a => a
+  | none =>
+    match v with
+    | .aliasOrName => lastPart key
+    | _ => key
+
+def isWordChar (c : Char) : Bool := c.isAlphanum || c = '_'
+
+/-- `SAFE_IDENTIFIER_RE = ^[_a-zA-Z]\w*$` (ASCII): `to_identifier` quotes everything else -/
+def isSafeIdent (s : String) : Bool :=
+  match s.toList with
+  | [] => false
+  | c :: rest => (c.isAlpha || c = '_') && rest.all isWordChar
+
+open SqlglotModel.Ident in
+/-- the alias as the scopes show it: `to_identifier(text)` (quoted iff not a safe identifier) then the identifier
+    normalisation of `qualify`; an explicit alias is kept as the un-expanded scopes have it -/
+def expandAlias (v : AliasVariant) (f : CaseFns) (s : Strategy) : AliasFn :=
+  fun explicit cur key =>
+    if explicit then cur
+    else
+      let text := expandAliasText v none key
+      (normalize f s ⟨text, !isSafeIdent text⟩).name
 
 
 /-- what `to_node` reads back from the tag `exp.expand` wrote: `dt.comments[0].split()[1]` of `"source: <name>"`,
